@@ -60,6 +60,7 @@ def main(root):
         "gonemod_cls": T(mod.f_argcls, {"a": gone.G, "b": int}, int),
         "subcls": T(mod.f_retcls, {"a": int}, leaf.L),
         "local": T(inner, {"x": int}, int),
+        "local2": T(inner, {"x": str}, List[str]),
         "params": T(mod.f_params, {"a": int, "b": str}, int),
         "params_pruned": T(mod.f_params, {"a": int}, int),
         # a name now bound to a non-type, nested inside generics
